@@ -114,8 +114,39 @@ class Plan:
             for l in ls:
                 roots += self.gen.inherent_roots(l, num_types=self._conv_types(l),
                                                  want=lambda g, n: g == "conv")
+                roots += self._infallible_conv_roots(l)
             out.extend(self._mk("conv", fam, roots))
         return out
+
+    def _infallible_conv_roots(self, l):
+        """From / LossyFrom impls with source `l` (class T: they must never panic).  Destinations: every primitive
+        integer and float and the conversion partners; only pairs for which the arithmetic specification of
+        engine_t says the impl may exist are generated (others would not type-check; an impl that exists against
+        the specification is Engine T's finding)"""
+        from . import engine_t as T
+        src = T.Ty(l.name)
+        dsts = [t for t in self._conv_types(l) if t != l.name and t not in ("isize", "usize")]
+        pf, pl = [], []
+        for d in dsts:
+            try:
+                dt = T.Ty(d)
+            except ValueError:
+                continue
+            if T.from_is_safe(src, dt):
+                pf.append((l.name, d))
+            if T.lossy_is_safe(src, dt):
+                pl.append((l.name, d))
+        for fl in ("f32", "f64"):
+            if (l.name, fl) not in pl:
+                pl.append((l.name, fl))                  # LossyFrom<fixed> for floats (rounding; dropped if absent)
+        for p in A.INT_TYPES + ["bool"]:
+            if p in ("isize", "usize"):
+                continue
+            if T.from_is_safe(T.Ty(p), src):
+                pf.append((p, l.name))
+            if T.lossy_is_safe(T.Ty(p), src):
+                pl.append((p, l.name))
+        return self.gen.conv_trait_roots(pf, "From") + self.gen.conv_trait_roots(pl, "LossyFrom")
 
     def _part_parse(self):
         out = []
